@@ -66,6 +66,8 @@ def key20(e, A, B, clause):
         return "nalgebra max: all entries negative (starts from 0)"
     if be == "nalgebra" and op == "min" and A and all(x > 0 for x in A[3]):
         return "nalgebra min: all entries positive (starts from 0)"
+    # (the classes below were genuine defects of the tree, since repaired by `fix:` commits; the class names are kept
+    #  so that a recurrence is reported under a recognisable key -- a "fixed" entry of known_findings suppresses nothing)
     if be == "ndarray" and op in ELEMENTWISE and A and B and shape(A) != shape(B) and broadcastable(B, A):
         return "ndarray element-wise binary op: second operand broadcastable to the first is accepted, not rejected"
     return c03.key_of(e, A, B, clause)
